@@ -588,6 +588,7 @@ class ConformationContainer:
                     # don't merge different residue types, e.g. alt-loc mutant
                     continue
                 self.copy_atom(atom)
+                my_residue_labels.add(atom.residue_label)
 
     def find_group(self, group):
         """Find a group in the container.
